@@ -127,6 +127,25 @@ HFold(e, pre, i) ==
          \cup Tag(HClosedOnce(post), "closed-once:" \o o.op)
          \cup HFold(e, post, i + 1)
 
+\* FdReader / FdWriter own a descriptor exactly like a UniqueHandle, but offer no accessor: the model state is carried
+\* along (HNext) and compared with what the descriptor table shows - which descriptors are closed / were released -
+\* and no descriptor may ever be closed a second time (the harness re-occupies every freed number with a sentinel)
+RECURSIVE FFold(_, _, _)
+Counts(f) == [r \in 0..(NRes - 1) |-> f[r + 1]]
+FFold(e, st, i) ==
+  IF i > Len(e.ops)
+  THEN LET fin == CloseAll(st, 1) IN
+       Tag(Counts(e.end.closed) = fin.closed /\ Counts(e.end.released) = fin.released, "close-at-destruction")
+       \cup Tag(e.end.stolen = 0, "descriptor-closed-twice")
+  ELSE LET o == e.ops[i] IN
+    IF Has(o, "bad") \/ ~HPre(st, o) THEN FFold(e, st, i + 1)
+    ELSE LET post == HNext(st, o) IN
+         Tag(Counts(o.closed) = post.closed /\ Counts(o.released) = post.released, "ownership:" \o o.op)
+         \cup Tag(o.stolen = 0, "descriptor-closed-twice:" \o o.op)
+         \cup (IF o.op = "release" THEN Tag(o.got = st.slots[o.o + 1].r, "release-value") ELSE {})
+         \cup Tag(HClosedOnce(post), "closed-once:" \o o.op)
+         \cup FFold(e, post, i + 1)
+
 CmpFails(e) ==
   UnionOver(Len(e.rows), LAMBDA i :
     LET r == e.rows[i] IN
@@ -147,6 +166,7 @@ Fails(e) ==
          [] e.e = "OBJ" /\ e.machine \in {"optional", "optional_int", "entry"} -> OFold(e, InitSlots, 1)
          [] e.e = "OBJ" /\ e.machine \in {"result", "result_void"} -> RFold(e, InitSlots, 1)
          [] e.e = "OBJ" /\ e.machine \in {"uhandle", "ufile"} -> HFold(e, HInit, 1)
+         [] e.e = "OBJ" /\ e.machine \in {"fdreader", "fdwriter"} -> FFold(e, HInit, 1)
          [] e.e = "CMP" -> CmpFails(e)
          [] e.e = "MSG" -> MsgFails(e)
          [] OTHER -> {}
